@@ -2,7 +2,7 @@
 mount-time validation is not bypassed (MT5), cluster-range bounds agree (FT11)."""
 from .framework import rule
 from .ev import all_guards, guarded, g_call, g_cmp, g_try_ok, try_inner
-from .mir import tstr, callee_of, path_matches, strip_refs, subterms, tmatch, find_sub, strip_generics, flat_place, rvalue_places
+from .mir import is_log_call, tstr, callee_of, path_matches, strip_refs, subterms, tmatch, find_sub, strip_generics, flat_place, rvalue_places
 from .fsmodel import VM, VMD, FATVOL, table_of_term, call_matches, ok_returns, err_returns, medium_effects, state_effects, FAT_MUTATORS, CACHE_MUTATORS
 from .dataflow import var_def_terms
 from .rules_guard import has_sub, last_field
@@ -384,6 +384,28 @@ def wp1(F, R):
     st = [(b, i) for b, i, s in fn.stmts() if s["k"] == "Assign" and s["p"]["proj"] and [e[2] for e in s["p"]["proj"] if e[0] == "field"][-1:] == ["raw_directory"]]
     okc = bool(cl) and all(guarded(fn, b, g_try_ok("VolumeManager::open_dir"))[0] for b in cl) and bool(st) and all(guarded(fn, b, g_try_ok("VolumeManager::open_dir"))[0] for b, i in st)
     R.require(okc, fn, "change_dir:only-on-success", "a refused change_dir (name is a file, missing, invalid) must leave the Directory as it was: the old handle is closed / replaced only after open_dir succeeded", fn.loc(cl[0]) if cl else fn.loc(0))
+    # the handle that is closed is the one the Directory held *before* the new one is stored: the value handed to close_dir is read
+    # from self.raw_directory at a point the store cannot precede (directly, or saved in a local first)
+    okold = bool(cl) and bool(st)
+    for b, t in fn.calls():
+        if b not in cl:
+            continue
+        a = t["args"][1] if len(t["args"]) > 1 else None
+        rd = None
+        if a is not None and a.get("k") in ("copy", "move") and not a["p"]["proj"]:
+            l_ = a["p"]["l"]
+            for _k in range(4):
+                d = fn.single_def(l_)
+                if d is None or d[0] != "assign" or d[3]["k"] != "Use" or d[3]["op"].get("k") not in ("copy", "move"):
+                    break
+                p_ = d[3]["op"]["p"]
+                if p_["proj"]:
+                    if [e[2] for e in p_["proj"] if e[0] == "field"][-1:] == ["raw_directory"]:
+                        rd = (d[1], d[2])
+                    break
+                l_ = p_["l"]
+        okold = okold and rd is not None and not any(rd[0] in fn.reach_after(sb) or (rd[0] == sb and rd[1] > si) for sb, si in st)
+    R.require(okold, fn, "change_dir:closes-the-old-handle", "change_dir hands close_dir the handle it has just stored (or a value not read from self.raw_directory before the store): the directory that was left stays open and the Directory keeps a closed handle", fn.loc(cl[0]) if cl else fn.loc(0))
 
 
 @rule("HV3", ["C08", "C01"], floor=3,
@@ -799,6 +821,10 @@ def lf8(F, R):
                 src_ = strip_refs(src_[1])
             else:
                 break
+        # ... in every fragment: no way through push() around the search (a terminator in a fragment that is not the name's last
+        # would otherwise be decoded, with the padding behind it, as characters of the name)
+        around = fn.reach([0], cut_blocks=[pos[0][0]])
+        R.require(not any(fn.term(rb)["k"] == "Return" for rb in around), fn, "terminator-every-fragment", "push() can run to its end without searching the fragment for the 0x0000 terminator (the search is skipped under some condition)", fn.loc(pos[0][0]))
         R.require(src_[:2] == ("arg", 2), fn, "terminator-whole-fragment", "the 0x0000 terminator is searched in %s, not in the whole 13-unit fragment: a terminator in a slot left out is decoded as a U+0000 character of the name" % tstr(src_)[:80], fn.loc(pos[0][0]))
     # the decode loop
     loops = [(h, body, backs) for (h, body, backs) in fn.loops() if any(fn.term(b)["k"] == "Call" and (callee_of(fn.term(b)) or "").endswith("Iterator::next") and "DecodeUtf16" in fn.term(b).get("callee_full", "") for b in body)]
@@ -1581,6 +1607,147 @@ def fs1(F, R):
                             start = w2[1] if w2 is not None else ("c", 0, None)
         ok = start is not None and starts_at_entry(fn, start, width)
         R.require(ok, fn0, "entry-of-cluster:%d" % width, "the %d-byte FAT entries the scan tests are not read from (cluster * %d) %% 512 of the block onwards (start: %s): the scan tests entries of other clusters than the one it counts" % (width, width, tstr(start)[:80] if start is not None else None), fn.loc(b))
+
+
+@rule("WE1", ["C10", "C09", "C02"], floor=1,
+      doc="an entry that is to be persisted is persisted: every way through FatVolume::write_entry_to_disk passes its write_back, except along the failure edge of one of its calls (the cache read, the offset conversion, the write-back itself) - it has no refusal of its own (a range check on the slot offset, a 'nothing changed' shortcut), which would leave a flushed file or a new directory with a stale entry")
+def we1(F, R):
+    from .ev import failure_edges
+    fn = F.fn(FATVOL + "::write_entry_to_disk")
+    wbs = [b for b, t in fn.calls() if call_matches(t, ("BlockCache::write_back", "BlockCache::write_back_with_duplicate"))]
+    R.require(len(wbs) >= 1, fn, "anchor", "write_entry_to_disk has no write_back call", fn.loc(0))
+    cut = []
+    for b, t in fn.calls():
+        if not is_log_call(t):
+            cut += failure_edges(fn, b)
+    around = fn.reach([0], cut_edges=cut, cut_blocks=wbs)
+    rets = [rb for rb in around if fn.term(rb)["k"] == "Return"]
+    R.require(not rets, fn, "no-own-refusal", "write_entry_to_disk can return without writing the entry back and without any of its calls having failed (a refusal / shortcut of its own)", fn.loc(0))
+
+
+@rule("FO2", ["C07", "C08"], floor=2,
+      doc="'already open' is decided by position only: every Err(FileAlreadyOpen) of the volume manager lies behind a true answer of file_is_open(volume, &dir_entry) for the entry the name lookup returned - a refusal by name, by first cluster or from the handle table alone would refuse a different file (same 8.3 name in another directory, another empty file)")
+def fo2(F, R):
+    n = 0
+    for fn in F.fns:
+        if not fn.npath.startswith("volume_mgr::") or fn.npath.startswith("volume_mgr::tests") or fn.kind == "Closure":
+            continue
+        for (b, i, vname, v) in err_returns(fn, adt="Error"):
+            if vname != "FileAlreadyOpen":
+                continue
+            n += 1
+            ok, _ = guarded(fn, b, g_call("file_is_open", True))
+            if not ok:
+                from .ev import implying_edges
+                ok = fn.unreachable_without(b, list(implying_edges(fn, g_call("file_is_open", True))))
+            R.require(ok, fn, "refused-only-by-position", "Err(FileAlreadyOpen) is reachable without file_is_open() having answered true for the looked-up entry", fn.loc(b, i))
+    R.require(n >= 2, None, "sites", "expected the FileAlreadyOpen refusals of open_file_in_dir and delete_file_in_dir (2), found %d" % n)
+
+
+@rule("SL1", ["C09", "C06", "C02", "C03"], floor=1,
+      doc="a slot number numbers all slots: wherever the FAT code enumerates the 32-byte slots of a directory block (`chunks_exact(32).enumerate()`: the index times 32 becomes an entry's recorded offset / the byte that is overwritten) the enumerate runs directly over chunks_exact - no filter / skip / rev / step_by in between, which would number only some slots and make every offset behind the first dropped slot point at another file's entry")
+def sl1(F, R):
+    n = 0
+    for fn in F.fns:
+        if not fn.npath.startswith("fat::volume::") or fn.npath.startswith("fat::volume::test"):
+            continue
+        for b, t in fn.calls():
+            if not (callee_of(t) or "").endswith("Iterator::enumerate") or not t["args"]:
+                continue
+            a = strip_refs(fn.term_of_operand(t["args"][0], b))
+            if not has_sub(a, lambda q: q[0] == "call" and q[1] and q[1].endswith("chunks_exact")):
+                continue
+            n += 1
+            x = a
+            while x[0] == "call" and x[1] and x[1].split("::")[-1] in ("into_iter",) and x[2]:
+                x = strip_refs(x[2][0])
+            direct = x[0] == "call" and x[1] and x[1].endswith("chunks_exact")
+            R.require(direct, fn, "slots-all-numbered", "enumerate() runs over %s, not directly over chunks_exact(): the index no longer numbers every 32-byte slot of the block, so index * 32 is not the slot's offset" % tstr(a)[:90], fn.loc(b),
+                      okdetail="enumerate(chunks_exact(..))")
+    R.ok(None, "note", "%d slot enumerations in fat::volume" % n)
+
+
+@rule("LS8", ["C06"], floor=2,
+      doc="a listing ends only where the directory ends: every Ok return of iterate_fat16 / iterate_fat32 lies behind the end-of-directory marker (is_end() true), behind the exhaustion of the cluster walk (the cursor Option is None / next_cluster answered EndOfFile) or behind the ROOT_DIR test of the fixed FAT16 root - not behind a slot or block budget of its own, which would cut long directories short while lookups still find the entries behind the cut")
+def ls8(F, R):
+    for wn in ("iterate_fat16", "iterate_fat32"):
+        fn = F.fn(FATVOL + "::" + wn)
+        oks = ok_returns(fn)
+        R.require(bool(oks), fn, wn + ":anchor", "no Ok return found", fn.loc(0))
+
+        def ends_walk(g):
+            if g.kind == "bool" and g.truth is True and g.term[0] == "call" and g.term[1] and g.term[1].endswith("::is_end"):
+                return True
+            if g.kind == "variant" and g.variant == "None":
+                return True                                     # the `while let Some(cluster) = current_cluster` exit (or a next() of the block range: followed by the cluster step)
+            if g.kind == "variant" and g.variant == "EndOfFile" and has_sub(g.term, lambda q: q[0] == "call" and q[1] and path_matches(q[1], "FatVolume::next_cluster")):
+                return True
+            return False
+        for (b, i, v) in oks:
+            ok, _ = guarded(fn, b, ends_walk)
+            if not ok:
+                # FAT16 fixed root: one pass, ended by the ROOT_DIR test
+                ok, _ = guarded(fn, b, lambda g: has_sub(g.term, lambda q: q[0] == "c" and q[2] and str(q[2]).endswith("ROOT_DIR")))
+            R.require(ok, fn, wn + ":ends-at-the-end", "%s can return Ok(()) - 'listing complete' - on a path that has neither seen the end-of-directory marker nor exhausted the directory's cluster chain" % wn, fn.loc(b, i))
+
+
+@rule("FD1", ["C01", "C02", "C09"], floor=6,
+      doc="every find_data_on_disk call of the volume manager is handed the open file's own record: restart point = its entry.cluster (the file's first cluster - the walk restarts there when the position moves backwards), target = its current_offset, cursor = a copy of its current_cluster; a different cluster as restart point makes a backward seek resolve relative to the wrong cluster and the data land in another cluster of the chain")
+def fd1(F, R):
+    def fields_of(fn, t_, depth=0):
+        """the named fields a value is read through, following plain copies"""
+        t_ = strip_refs(t_)
+        if t_[0] == "var" and depth < 4:
+            ds = var_def_terms(fn, t_[1])
+            if len(ds) == 1:
+                return fields_of(fn, ds[0], depth + 1)
+            return None
+        if t_[0] == "place":
+            inner = fields_of(fn, t_[1], depth + 1) or []
+            return inner + [e for e in t_[2] if isinstance(e, str) and e != "*"]
+        if t_[0] == "call" and t_[1] and t_[1].split("::")[-1] in ("deref", "deref_mut", "index", "index_mut") and t_[2]:
+            return fields_of(fn, t_[2][0], depth + 1)
+        return []
+    n = 0
+    for fn in F.fns:
+        if not fn.npath.startswith(VM + "::") or fn.kind == "Closure":
+            continue
+        for b, t in fn.calls():
+            if not call_matches(t, ("find_data_on_disk",)) or len(t["args"]) != 5:
+                continue
+            n += 1
+            fs3 = fields_of(fn, fn.term_of_operand(t["args"][3], b))
+            R.require(fs3 is not None and "open_files" in fs3 and fs3[-2:] == ["entry", "cluster"], fn, "restart=file-start", "find_data_on_disk is given %s as the file's first cluster (the restart point of a backward seek); it must be the open file's entry.cluster" % tstr(fn.term_of_operand(t["args"][3], b))[-80:], fn.loc(b))
+            fs4 = fields_of(fn, fn.term_of_operand(t["args"][4], b))
+            R.require(fs4 is not None and "open_files" in fs4 and fs4[-1:] == ["current_offset"], fn, "target=current_offset", "find_data_on_disk is asked for %s; it must be the open file's current_offset" % tstr(fn.term_of_operand(t["args"][4], b))[-80:], fn.loc(b))
+            cur = strip_refs(fn.term_of_operand(t["args"][2], b))
+            okc = False
+            if cur[0] == "var":
+                ds = [fields_of(fn, d) for d in var_def_terms(fn, cur[1])]
+                okc = bool(ds) and all(d is not None and "open_files" in d and d[-1:] == ["current_cluster"] for d in ds)
+            R.require(okc, fn, "cursor=current_cluster", "the cursor handed to find_data_on_disk is not a copy of the open file's current_cluster", fn.loc(b))
+    R.require(n >= 3, None, "sites", "expected the find_data_on_disk calls of read and write (3), found %d" % n)
+
+
+@rule("FC2", ["C04", "C05", "C03"], floor=2,
+      doc="the chain the volume manager frees is the looked-up file's: every free_cluster_chain / truncate_cluster_chain call of volume_mgr is handed the `.cluster` of the directory entry that find_directory_entry returned for the name (directly, or through the FileInfo built from it) - not the cluster of the directory the file lives in, of an open handle, or a constant; freeing any other chain marks clusters of a live file or directory as free")
+def fc2(F, R):
+    from .dataflow import derives_from_call
+    n = 0
+    for fn in F.fns:
+        if not fn.npath.startswith("volume_mgr::") or fn.npath.startswith("volume_mgr::tests") or fn.kind == "Closure":
+            continue
+        for b, t in fn.calls():
+            if not call_matches(t, ("FatVolume::free_cluster_chain", "FatVolume::truncate_cluster_chain")) or len(t["args"]) < 3:
+                continue
+            n += 1
+            a = fn.term_of_operand(t["args"][2], b)
+            sa = strip_refs(a)
+            is_cluster_field = sa[0] == "place" and [e for e in sa[2] if isinstance(e, str) and e != "*"][-1:] == ["cluster"]
+            through_dir_table = has_sub(a, lambda q: q[0] == "place" and "open_dirs" in [e for e in q[2] if isinstance(e, str)]) and not has_sub(a, lambda q: q[0] == "call" and q[1] and path_matches(q[1], "FatVolume::find_directory_entry"))
+            ok = is_cluster_field and not through_dir_table and derives_from_call(fn, a, ("FatVolume::find_directory_entry",))
+            R.require(ok, fn, "freed-chain=looked-up-entry", "%s is handed %s; it must be the first cluster of the directory entry the name lookup returned" % ((callee_of(t) or "").split("::")[-1], tstr(a)[-90:]), fn.loc(b))
+    R.require(n >= 2, None, "sites", "expected the chain-freeing calls of delete_file_in_dir and of the truncating open (2), found %d" % n)
 
 
 @rule("TB1", ["C04", "C02", "C06", "C03"], floor=3,
